@@ -15,7 +15,12 @@ CONFIG = dict(
                 "is never supplied) is enqueued after every other done, all its check closures are fired, the inserter is held "
                 "inside the HighestLamport call for the copy handled last, Stop() is started from its own goroutine, and only then "
                 "the inserter continues (the batch finishes, its done fires, Stop returns). "
-                "Safety clauses are checked on the logged callback order."),
+                "Safety clauses are checked on the logged callback order. "
+                "TestC15ShortLived (GOMAXPROCS=1): the same 1-3 batches (1-5 events: roots, children, events whose parent is never supplied, "
+                "events too far ahead, failing checks/Process) are given to 8-24 FRESH processors each, and every processor is stopped right "
+                "after its last Enqueue (drawn per processor: immediately / after one runtime.Gosched / after a 1-400 us sleep / Gosched "
+                "between Start and the first Enqueue), typically before the worker goroutines spawned by Start() ran at all, so the batches "
+                "are handled inside Stop() or cancelled by it."),
     level_note=NOTE_COMMON + (" Timing policy: the only real-time waits (arrival of a stored closure, return of Enqueue, the done "
                               "callbacks) have a 60 s deadline and make the case inconclusive, never a violation; whether an Enqueue "
                               "is accepted when the semaphore is short depends on timing and the oracle accepts both outcomes."),
@@ -35,7 +40,15 @@ CONFIG = dict(
           "(nothing fails, nothing refused, ample limits, constant highest Lamport) exactly the supplied events that are not too "
           "far ahead and whose ancestry is supplied and not too far ahead are processed, each exactly once, before the last done. "
           "Non-trivial = an accepted ordered batch whose checks completed out of batch order, or an accepted batch containing "
-          "an event too far ahead. Distinct by hash of the whole case description."),
+          "an event too far ahead. Distinct by hash of the whole case description. "
+          "TestC15ShortLived, per processor life (classes lives_*; one evaluation = one drawn set of batches with all its lives): every copy "
+          "the processor handled (released at once, or handed to the ordering buffer: first ID() call on the copy's wrapper) is reported "
+          "released exactly once by the time Stop() has returned, no callback of the processor (CheckParentless, HighestLamport, Exists, Get, "
+          "CheckParents, Process, Released, done, notifyAnnounces) runs after Stop() has returned (observed for a bounded settle time: "
+          "until the goroutine count is back at its value before Start(), at most 3 ms), the ordering buffer is empty after Stop(), and the "
+          "semaphore is back at zero when every copy of every accepted batch was released; per copy at most one Process, parents first. "
+          "Non-trivial there = in at least one life Stop() was called before any worker callback was seen and a copy that stayed incomplete in "
+          "the buffer was released by the final Clear of that Stop()."),
     assumptions=[
         "'accepted' = Enqueue returned nil (ErrBusy when the events semaphore cannot be acquired in time)",
         "the highest known Lamport time is what the harness-owned HighestLamport callback returns (constant, the maximum over processed events, or a drawn schedule that may decrease); "
@@ -47,8 +60,13 @@ CONFIG = dict(
         "an event is connected exactly when the harness-owned Exists/Get say so (Process returned nil)",
         "Lamport arithmetic of the rule does not overflow (highest and the buffer limit stay far below 2^31)",
         "MaxTasks is at least the number of batches (otherwise Enqueue itself blocks on the task queue until the checks complete)",
+        "TestC15ShortLived: a batch enqueued right before Stop() may be cancelled by it (the checker or the inserter sees the closed quit channel first); "
+        "events of such a batch that the inserter never took are never handled and never released, nothing is claimed for them (class lives_accepted_batch_cancelled_by_stop); "
+        "'Stop waits until all the internal goroutines have finished' (doc of Processor.Stop) is taken as the guarantee that no callback runs after Stop() returned; "
+        "the settle time after Stop() only decides how much is observed, a correct run is never judged by timing",
     ],
     units=[
         dict(test="TestC15Processor", quick=1500, thorough=160000, shards=16),
+        dict(test="TestC15ShortLived", quick=1500, thorough=160000, shards=16, gomaxprocs=1),
     ],
 )
